@@ -24,7 +24,8 @@ pub struct Fault {
     pub link: u8,
     pub start_ds: u16, // deciseconds
     pub dur_ds: u16,
-    /// 0 black-hole both ways, 1 uplink-only loss, 2 reply-only loss, 3 handshake replies lost, 4 socket send error
+    /// 0 black-hole both ways, 1 uplink-only loss, 2 reply-only loss, 3 handshake replies lost, 4 socket send error,
+    /// 5 re-opening the link's socket is refused (its source address is gone) - combined with a black hole
     pub kind: u8,
 }
 
@@ -61,7 +62,24 @@ pub fn strategy(max_horizon_s: u16) -> impl Strategy<Value = Case> {
         1 => total_outage(),
         1 => refusing_receiver(),
         1 => cold_start(),
+        1 => reopen_refused(),
     ]
+}
+
+/// One link is black-holed and, for as long, every attempt to re-open its socket fails (bind refused): the only
+/// history in which the reconnect back-off grows - 10, 20, 40, 80 s and then the 120 s cap. 345 s of simulated time.
+fn reopen_refused() -> impl Strategy<Value = Case> {
+    (strategy_h(80, false), 100u16..200, 2u8..5).prop_map(|(mut c, start, tsel)| {
+        c.faults.clear();
+        c.forgets.clear();
+        c.timeout = tsel; // 1000 / 1001 / 2500 ms
+        c.faults.push(Fault { link: 1, start_ds: start, dur_ds: 3250, kind: 0 });
+        c.faults.push(Fault { link: 1, start_ds: start, dur_ds: 3250, kind: 5 });
+        c.horizon_s = (start + 3250) / 10 + 10;
+        c.burst_gap_ms = c.burst_gap_ms.max(200);
+        c.burst_n = c.burst_n.min(5);
+        c
+    })
 }
 
 /// The receiver is unreachable on every link from the very start (the start-up grace is spent before anything
@@ -330,6 +348,15 @@ pub fn check(case: &Case, obs: &mut Obs, which: Which, ctx: &Ctx) -> CheckResult
     let mut next_srt_ack = t0 + 200;
     let mut break_events: Vec<(u64, usize)> = case.faults.iter().filter(|f| f.kind == 4).map(|f| (t0 + f.start_ds as u64 * 100, f.link as usize)).collect();
     break_events.sort();
+    // (time, link, refuse on/off)
+    let mut refuse_events: Vec<(u64, usize, bool)> = case
+        .faults
+        .iter()
+        .filter(|f| f.kind == 5)
+        .flat_map(|f| [(t0 + f.start_ds as u64 * 100, f.link as usize, true), (t0 + (f.start_ds as u64 + f.dur_ds as u64) * 100, f.link as usize, false)])
+        .collect();
+    refuse_events.sort();
+    let _ = sh.take_bind_calls();
     let mut forget_events: Vec<(u64, bool)> = case.forgets.iter().map(|(t, e)| (t0 + *t as u64 * 100, *e)).collect();
     forget_events.sort();
     let mut ids_equal_since: Option<u64> = None;
@@ -370,6 +397,7 @@ pub fn check(case: &Case, obs: &mut Obs, which: Which, ctx: &Ctx) -> CheckResult
                 }
             }
             // teardown / attempt / rejoin monitors
+            let bind_calls = sh.take_bind_calls();
             for i in 0..n {
                 let c = &sh.st.conns[i];
                 let sock_now = sh.st.conn_io.get(&c.conn_id).map(|io| std::sync::Arc::as_ptr(&io.socket) as usize).unwrap_or(0);
@@ -414,6 +442,19 @@ pub fn check(case: &Case, obs: &mut Obs, which: Which, ctx: &Ctx) -> CheckResult
                     m.attempts.push(now);
                     broken[i] = false;
                 }
+                // an attempt whose bind was refused leaves the socket as it was: it still is an attempt
+                if sock_now == $socks_before[i] && bind_calls.contains(&c.local_ip) {
+                    if which == Which::C08 {
+                        vensure!($is_hk, "reconnect-outside-housekeeping", "{}: link {i} tried to re-open its socket outside a housekeeping pass", $what);
+                        if let Some(prev) = m.attempts.last() {
+                            let gap = now - prev;
+                            let min_gap = if m.ever_established { 5000 } else { 1000 };
+                            vensure!(gap >= min_gap, "retry-too-soon", "{}: link {i} reconnect attempts {} ms apart (< {min_gap})", $what, gap);
+                        }
+                    }
+                    m.attempts.push(now);
+                    obs.class("re-open-refused");
+                }
                 // "forever": while down, attempts keep coming
                 if which == Which::C08 && !c.connected && $is_hk {
                     let since = m.attempts.last().copied().or(m.down_since).unwrap_or(t0);
@@ -435,6 +476,9 @@ pub fn check(case: &Case, obs: &mut Obs, which: Which, ctx: &Ctx) -> CheckResult
         if let Some((t, _)) = break_events.first() {
             t_next = t_next.min(*t);
         }
+        if let Some((t, ..)) = refuse_events.first() {
+            t_next = t_next.min(*t);
+        }
         if let Some((t, _)) = forget_events.first() {
             t_next = t_next.min(*t);
         }
@@ -446,6 +490,16 @@ pub fn check(case: &Case, obs: &mut Obs, which: Which, ctx: &Ctx) -> CheckResult
         let socks: Vec<usize> = (0..n).map(|i| sh.st.conn_io.get(&sh.st.conns[i].conn_id).map(|io| std::sync::Arc::as_ptr(&io.socket) as usize).unwrap_or(0)).collect();
         let conn_before: Vec<bool> = sh.st.conns.iter().map(|c| c.connected).collect();
 
+        if refuse_events.first().is_some_and(|(t, ..)| *t <= now) {
+            let (_, l, on) = refuse_events.remove(0);
+            if l < n {
+                sh.refuse_bind(l, on);
+                if on {
+                    fault_kinds.insert(5);
+                }
+            }
+            continue;
+        }
         if break_events.first().is_some_and(|(t, _)| *t <= now) {
             let (_, l) = break_events.remove(0);
             if sh.break_socket(l) {
